@@ -1,6 +1,7 @@
 """C06 -- automaton-driven enumeration (M1, M2, M3, U1)."""
 from ..rules import enum_rules as E
-from ..rules.common import u1
+from ..rules import cache_rules as CA
+from ..rules.common import u1, n1
 
 REP = E.REP
 ENTRIES = [
@@ -19,6 +20,8 @@ def run(ctx):
     E.rule_m1(ctx)
     E.rule_m2(ctx)
     E.rule_m3(ctx)
+    n1(ctx, ["geometry_tools/representation.py", "geometry_tools/automata/fsa.py"])
+    CA.rule_c2(ctx, "Representation")
     u1(ctx, ENTRIES, min_functions=10)
     ctx.r.assume("equality of the returned word set with the automaton's "
                  "language, free-group uniqueness and memo reuse across "
